@@ -44,7 +44,7 @@ func TestC01(t *testing.T) {
 			g.keys = keys
 		}
 		w.pool[s.Table] = g.keys
-		g.failClasses = []string{"index-key-type-put", "index-key-type-update", "wrong-typed-key", "missing-key-attr", "oversized-index-key", "malformed-update"}
+		g.failClasses = []string{"index-key-type-put", "index-key-type-update", "wrong-typed-key", "missing-key-attr", "oversized-index-key", "malformed-update", "invalid-return-values"}
 		var lastRefused *model.Op
 		var flagOverwrite, flagReput, flagUpsert, flagDelAbsent bool
 		touched := map[string]bool{}
